@@ -86,6 +86,21 @@ func (r *Run) observeListing(bucket string) (int, []string) {
 	return 200, out
 }
 
+// observeGrouped is the bucket's listing with delimiter "/" (Contents and
+// CommonPrefixes), which on the file-system backends also shows directories.
+func (r *Run) observeGrouped(bucket string) string {
+	resp := r.quiet("GET", target(bucket, "", url.Values{"delimiter": {"/"}}))
+	r.noPanic(resp, "list objects")
+	if resp.Status != 200 {
+		return fmt.Sprintf("status %d", resp.Status)
+	}
+	var x xListResult
+	if xml.Unmarshal(resp.Body, &x) != nil {
+		return "unparsable"
+	}
+	return fromX(&x).String()
+}
+
 func (r *Run) observeUploads(bucket string) []string {
 	resp := r.quiet("GET", target(bucket, "", url.Values{"uploads": {""}}))
 	r.noPanic(resp, "list multipart uploads")
